@@ -136,6 +136,10 @@ func matchChunk(chunk, s string) (rest string, ok bool) {
 }
 
 func (p Pattern) MarshalJSON() ([]byte, error) {
+	if len(p.comps) == 0 {
+		// the decoder requires at least one component: spell the empty pattern as an empty literal
+		return []byte(`[{"Literal":""}]`), nil
+	}
 	var buf bytes.Buffer
 	buf.WriteRune('[')
 	for i, comp := range p.comps {
